@@ -41,9 +41,7 @@ func exercise(c Case) *ev.Verdict {
 		if len(o.Escapes) > 0 {
 			return escapeVerdict(o.Escapes[0], c.Project.String())
 		}
-		if o.Check == nil && o.ExampleErr == nil && len(o.Example) > 4<<20 {
-			return ev.V("example:huge", "Example() of a small project is %d bytes\n%s", len(o.Example), c.Project.String())
-		}
+
 	case "enum":
 		if esc := sut.Trap("Enum", func() {
 			e := enum.New("@e", c.Text)
